@@ -129,7 +129,7 @@ impl Pager {
         let mut page_zero: PageZero = PageZero::from_config(config);
         page_zero.metadata_mut().page_size = config.page_size as u32;
         page_zero.metadata_mut().min_keys = config.min_keys_per_page as u8;
-        page_zero.metadata_mut().cache_size = config.cache_size as u16;
+        page_zero.metadata_mut().cache_size = config.cache_size.min(u16::MAX as usize) as u16;
         page_zero.metadata_mut().num_siblings_per_side = config.num_siblings_per_side as u8;
 
         self.write_block(PAGE_ZERO, page_zero.as_ref(), config.page_size as usize)?;
